@@ -27,6 +27,12 @@ def run(ctx):
         if key not in seen_enc and encodable(v):
             seen_enc.add(key)
             scen.append({"sc": len(scen), "kind": "enc", "v": v})
+    # object keys at and beyond what the 16-bit key length can say
+    for n in (65535, 65536, 70000):
+        scen.append({"sc": len(scen), "kind": "enc", "v": {"k": "obj", "end": True, "ps": [
+            {"key": {"n": n, "id": 5, "s": ""}, "v": {"k": "num", "id": 1}}]}})
+        scen.append({"sc": len(scen), "kind": "enc", "v": {"k": "obj", "end": True, "ps": [
+            {"key": {"n": 2, "id": 7, "s": ""}, "v": {"k": "bool", "b": True}}, {"key": {"n": n, "id": 6, "s": ""}, "v": {"k": "str", "s": {"n": 3, "id": 2, "s": ""}}}]}})
     ndec = len(scen)
     ctx.log("%s: %d (value, cut) cases enumerated by TLC, %d values lal can encode" % (cfg, ndec - len(seen_enc), len(seen_enc)))
     depths = [1, 2, 63, 64, 65, 1000, 100000] + ([] if ctx.quick else [2000000, 5500000])
